@@ -537,4 +537,36 @@ def prun (c : PCfg) : PState → List Ev → List EvOut × PState
 def pinit (p : Policy) (c : PCfg) (ds : List Nat) : PState :=
   ⟨p, c.ups.map (fun _ => 0), c.ups.map (fun _ => 0), [], ds, if c.cb then some true else none⟩
 
+/-! ### active health checks: when the `healthy` flag flips
+(healthchecks.go `doActiveHealthCheck`: `markHealthy` / `markUnhealthy`; `Provision`: `passes` and
+`fails` below 1 mean 1). Every check counts a pass or a fail; the flag flips when the counter has
+reached its threshold, and only a flip resets the counters (`resetHealth`) — a result of the other
+kind does not. -/
+
+structure AhState where
+  healthy : Bool
+  passes : Nat     -- `Host.activePasses`
+  fails : Nat      -- `Host.activeFails`
+deriving DecidableEq, Repr
+
+/-- one active health check with result `ok`; `p`, `f` = the provisioned `Passes`, `Fails` -/
+def ahStep (p f : Nat) (s : AhState) (ok : Bool) : AhState :=
+  if ok then
+    -- markHealthy: countHealthPass(1); passes >= Passes && setHealthy(true) changed something → resetHealth
+    if p ≤ s.passes + 1 ∧ s.healthy = false then ⟨true, 0, 0⟩ else { s with passes := s.passes + 1 }
+  else
+    -- markUnhealthy: countHealthFail(1); fails >= Fails && setHealthy(false) changed something → resetHealth
+    if f ≤ s.fails + 1 ∧ s.healthy = true then ⟨false, 0, 0⟩ else { s with fails := s.fails + 1 }
+
+/-- the states after each check of a sequence of results, from a state -/
+def ahRun (p f : Nat) : AhState → List Bool → List AhState
+  | _, [] => []
+  | s, r :: rs => ahStep p f s r :: ahRun p f (ahStep p f s r) rs
+
+/-- a new upstream: healthy, nothing counted -/
+def ahInit : AhState := ⟨true, 0, 0⟩
+
+/-- `Provision`: thresholds below 1 are 1 -/
+def ahThreshold (n : Nat) : Nat := if n < 1 then 1 else n
+
 end CaddyModel.C08
